@@ -17,6 +17,10 @@ def check_boundary_region(run, rb, parent_mesh, label=None, precondition_valid=T
         run.skip("boundary", "no gradient / unsupported cell type")
         return
     mon = "boundary." + ct
+    if not hasattr(rb.mesh, "cells_faces"):
+        run.fail(mon, "celltype=%s clause=face-mesh" % (label or ct), "%s: the region's mesh is no mesh of boundary cells any more (no cells_faces): "
+                 "it does not describe the surface" % (label or ct))
+        return
     dim = parent_mesh.points.shape[1]
     tag = label or ct
     unit = "%s:only_surface=%s" % (ct, bool(rb.only_surface))
